@@ -32,10 +32,25 @@ type Engine struct {
 	fileAST   map[string]*ast.File
 	trusted   map[string]bool // trusted specs used
 	srcCache  map[string][]byte
+	localKeys map[*ssa.Alloc]string
+	localOwner map[string]*ssa.Function
+}
+
+// ownsLocal: may code running in an activation of fn (or a closure nested in it) name this frame-local key?
+// Locals of other functions' activations (including recursive instances reached through calls) are never ours.
+func (e *Engine) ownsLocal(fn *ssa.Function, key string) bool {
+	owner := e.localOwner[key]
+	for f := fn; f != nil; f = f.Parent() {
+		if f == owner {
+			return true
+		}
+	}
+	return false
 }
 
 type modInfo struct {
 	keys    map[string]Sort
+	own     map[string]Sort // stores to the function's own frame-local variables (invisible to callers)
 	any     bool
 	callees []*ssa.Function
 }
@@ -356,9 +371,21 @@ func (e *Engine) snippet(pos token.Pos, v ssa.Value) string {
 
 // ---- mod-sets
 
-func keyOfAddr(addr ssa.Value) (map[string]Sort, bool) {
+func (e *Engine) keyOfAddr(addr ssa.Value) (map[string]Sort, bool) {
 	out := map[string]Sort{}
 	elem := addr.Type().Underlying().(*types.Pointer).Elem()
+	switch a := addr.(type) {
+	case *ssa.Alloc:
+		if k, ok := e.localKey(a); ok {
+			out[k] = ArraySort(SInt, sortOf(elem))
+			return out, false
+		}
+	case *ssa.FreeVar:
+		if k, ok := e.freeVarLocalKey(a); ok {
+			out[k] = ArraySort(SInt, sortOf(elem))
+			return out, false
+		}
+	}
 	addStruct := func(t types.Type) {
 		for _, f := range structFields(t) {
 			if !isStruct(f.Type()) && !isArray(f.Type()) {
@@ -413,8 +440,16 @@ func mapModKeys(mt *types.Map, out map[string]Sort) {
 func (e *Engine) instrMods(in ssa.Instruction, mi *modInfo) {
 	switch x := in.(type) {
 	case *ssa.Store:
-		ks, _ := keyOfAddr(x.Addr)
+		ks, _ := e.keyOfAddr(x.Addr)
+		_, isAlloc := x.Addr.(*ssa.Alloc)
 		for k, s := range ks {
+			if isAlloc && strings.HasPrefix(k, "Local.") {
+				if mi.own == nil {
+					mi.own = map[string]Sort{}
+				}
+				mi.own[k] = s
+				continue
+			}
 			mi.keys[k] = s
 		}
 	case *ssa.MapUpdate:
@@ -425,10 +460,15 @@ func (e *Engine) instrMods(in ssa.Instruction, mi *modInfo) {
 		et := x.Type().Underlying().(*types.Slice).Elem()
 		mi.keys[elemKey(sortOf(et))] = ArraySort(SInt, ArraySort(SInt, sortOf(et)))
 	case *ssa.Alloc:
-		elem := x.Type().(*types.Pointer).Elem()
-		ks, _ := keyOfAddr(x)
-		_ = elem
+		ks, _ := e.keyOfAddr(x)
 		for k, s := range ks {
+			if strings.HasPrefix(k, "Local.") {
+				if mi.own == nil {
+					mi.own = map[string]Sort{}
+				}
+				mi.own[k] = s
+				continue
+			}
 			mi.keys[k] = s
 		}
 	case *ssa.MakeInterface:
@@ -441,7 +481,7 @@ func (e *Engine) instrMods(in ssa.Instruction, mi *modInfo) {
 		if x.Op == token.MUL {
 			elem := x.X.Type().Underlying().(*types.Pointer).Elem()
 			if isStruct(elem) {
-				ks, _ := keyOfAddr(x.X)
+				ks, _ := e.keyOfAddr(x.X)
 				for k, s := range ks {
 					mi.keys[k] = s
 				}
@@ -495,7 +535,7 @@ func (e *Engine) instrMods(in ssa.Instruction, mi *modInfo) {
 			switch a.(type) {
 			case *ssa.FieldAddr, *ssa.IndexAddr, *ssa.Global, *ssa.Alloc:
 				if _, ok := a.Type().Underlying().(*types.Pointer); ok {
-					ks, _ := keyOfAddr(a)
+					ks, _ := e.keyOfAddr(a)
 					for k, s := range ks {
 						mi.keys[k] = s
 					}
@@ -514,7 +554,7 @@ func (e *Engine) instrMods(in ssa.Instruction, mi *modInfo) {
 func (e *Engine) invokeMods(c *ssa.CallCommon) (map[string]Sort, bool) {
 	name := "iface:" + ifaceMethodName(c.Value.Type(), c.Method)
 	if ct := e.contracts.Funcs["::"+name]; ct != nil {
-		if ct.Flags["pure"] || ct.Flags["noeffect"] || (ct.HasMod && len(ct.Modifies) == 0) {
+		if ct.Flags["pure"] || ct.Flags["noeffect"] || ct.Flags["deterministic"] || (ct.HasMod && len(ct.Modifies) == 0) {
 			return nil, false
 		}
 		return nil, true
@@ -611,7 +651,7 @@ func (e *Engine) closureMods(fn *ssa.Function) *modInfo {
 		}
 		seen[f] = true
 		if ct := e.contractFor(f); ct != nil && f != fn {
-			if ct.Flags["pure"] || ct.Flags["noeffect"] || (ct.HasMod && len(ct.Modifies) == 0) {
+			if ct.Flags["pure"] || ct.Flags["noeffect"] || ct.Flags["deterministic"] || (ct.HasMod && len(ct.Modifies) == 0) {
 				return
 			}
 			if ct.Flags["trusted"] && ct.HasMod {
@@ -677,12 +717,18 @@ func (e *Engine) loopModSet(fn *ssa.Function, body map[int]bool) (map[string]Sor
 			e.instrMods(in, mi)
 		}
 	}
+	for k, s := range mi.own {
+		mi.keys[k] = s
+	}
 	for _, c := range mi.callees {
 		cm := e.closureMods(c)
 		if cm.any {
 			mi.any = true
 		}
 		for k, s := range cm.keys {
+			if strings.HasPrefix(k, "Local.") && !e.ownsLocal(fn, k) {
+				continue
+			}
 			mi.keys[k] = s
 		}
 	}
@@ -759,4 +805,105 @@ func (e *Engine) allFunctions(pkgPath string) []*ssa.Function {
 	}
 	sort.Slice(out, func(i, j int) bool { return out[i].String() < out[j].String() })
 	return out
+}
+
+
+// ---- frame-local variables
+// A local whose address is taken only to be captured by closures that are themselves only deferred or called
+// directly never escapes the activation: it gets its own heap key (Local.*) that opaque calls cannot write.
+
+func closureStaysLocal(mc *ssa.MakeClosure) bool {
+	for _, r := range *mc.Referrers() {
+		switch x := r.(type) {
+		case *ssa.DebugRef:
+		case *ssa.Defer:
+			if x.Call.Value != mc {
+				return false
+			}
+		case *ssa.Call:
+			if x.Call.Value != mc {
+				return false
+			}
+		default:
+			return false
+		}
+	}
+	return true
+}
+
+func (e *Engine) localKey(a *ssa.Alloc) (string, bool) {
+	if k, ok := e.localKeys[a]; ok {
+		return k, k != ""
+	}
+	if e.localKeys == nil {
+		e.localKeys = map[*ssa.Alloc]string{}
+	}
+	e.localKeys[a] = ""
+	elem := a.Type().(*types.Pointer).Elem()
+	if isStruct(elem) || isArray(elem) || a.Referrers() == nil {
+		return "", false
+	}
+	for _, r := range *a.Referrers() {
+		switch x := r.(type) {
+		case *ssa.DebugRef:
+		case *ssa.UnOp:
+		case *ssa.Store:
+			if x.Val == a {
+				return "", false
+			}
+		case *ssa.MakeClosure:
+			if !closureStaysLocal(x) {
+				return "", false
+			}
+		default:
+			return "", false
+		}
+	}
+	idx := 0
+	for _, b := range a.Parent().Blocks {
+		for _, in := range b.Instrs {
+			if al, ok := in.(*ssa.Alloc); ok {
+				if al == a {
+					goto done
+				}
+				idx++
+			}
+		}
+	}
+done:
+	k := fmt.Sprintf("Local.%s.%s.%d", e.shortName(a.Parent()), a.Comment, idx)
+	e.localKeys[a] = k
+	if e.localOwner == nil {
+		e.localOwner = map[string]*ssa.Function{}
+	}
+	e.localOwner[k] = a.Parent()
+	return k, true
+}
+
+// freeVarLocalKey resolves a closure's free variable to the local key of the variable it captures, if any.
+func (e *Engine) freeVarLocalKey(fv *ssa.FreeVar) (string, bool) {
+	fn := fv.Parent()
+	parent := fn.Parent()
+	if parent == nil {
+		return "", false
+	}
+	idx := -1
+	for i, f := range fn.FreeVars {
+		if f == fv {
+			idx = i
+		}
+	}
+	for _, b := range parent.Blocks {
+		for _, in := range b.Instrs {
+			if mc, ok := in.(*ssa.MakeClosure); ok && mc.Fn == fn && idx >= 0 && idx < len(mc.Bindings) {
+				switch bv := mc.Bindings[idx].(type) {
+				case *ssa.Alloc:
+					return e.localKey(bv)
+				case *ssa.FreeVar:
+					return e.freeVarLocalKey(bv)
+				}
+			}
+		}
+	}
+	return "", false
 }
